@@ -60,7 +60,8 @@ func runRevSuffix(args []string) {
 	_, err = core.ReadRecords(f, runtime.NumCPU(), func(rec *core.Record) {
 		inner := rec.RIP != nil && rec.RIQ != nil && rec.RII != nil
 		set := rec.SSL != nil && rec.MSZ != nil
-		if !inner && !set && (rec.RSS == nil || rec.MSZ == nil) {
+		ml := rec.MLS != nil
+		if !inner && !set && !ml && (rec.RSS == nil || rec.MSZ == nil) {
 			return
 		}
 		wantStrat, tag := "UseReverseSuffix", "revsuffix"
@@ -69,6 +70,9 @@ func runRevSuffix(args []string) {
 		}
 		if set {
 			wantStrat, tag = "UseReverseSuffixSet", "revsuffixset"
+		}
+		if ml {
+			wantStrat, tag = "UseMultilineReverseSuffix", "revsuffixml"
 		}
 		pat := rec.Re.Pattern()
 		std, err := regexp.Compile(pat)
@@ -86,6 +90,9 @@ func runRevSuffix(args []string) {
 		if inner {
 			lits = rec.RII
 		}
+		if ml {
+			lits = rec.MLS
+		}
 		suffix := make([]byte, len(lits))
 		for i, x := range lits {
 			suffix[i] = byte(x)
@@ -95,7 +102,18 @@ func runRevSuffix(args []string) {
 		if re, perr := syntax.Parse(pat, syntax.Perl); perr == nil {
 			comp := nfa.NewCompiler(nfa.CompilerConfig{UTF8: true, Anchored: false, DotNewline: false, MaxRecursionDepth: 100})
 			if n, nerr := comp.CompileRegexp(re); nerr == nil {
-				if set {
+				if ml {
+					if x, err := meta.NewMultilineReverseSuffixSearcher(n, literal.NewSeq(literal.NewLiteral(suffix, true)), lazy.DefaultConfig()); err == nil {
+						if len(rec.MLP) > 0 {
+							pb := make([]byte, len(rec.MLP))
+							for i, v := range rec.MLP {
+								pb[i] = byte(v)
+							}
+							x.SetPrefixLiterals(literal.NewSeq(literal.NewLiteral(pb, false)))
+						}
+						direct = x
+					}
+				} else if set {
 					var ls []literal.Literal
 					for _, l := range rec.SSL {
 						bb := make([]byte, len(l))
@@ -145,6 +163,9 @@ func runRevSuffix(args []string) {
 			gap := false
 			// (the family has no look-behind assertion, so a search from `at` is a search in h[at:])
 			for p := range h.AtF {
+				if ml && p > 0 && b[offs[p]-1] != '\n' {
+					continue // (?m)^ looks behind: regexp can only confirm the offsets that begin a line
+				}
 				w := []int{}
 				if loc := std.FindIndex(b[offs[p]:]); loc != nil {
 					w = []int{loc[0] + offs[p], loc[1] + offs[p]}
